@@ -81,21 +81,21 @@ pub proof fn lemma_strip_nl_idem(b: Seq<u8>)
 // ------------------------------------------------------------------ what the statement of C09 says about the written lines
 pub open spec fn noeol_word() -> Seq<char> { seq!['n', 'o', '-', 'e', 'o', 'l'] }
 /// the written line reads back -- expectation grammar (C08: line_parts with the default registry) and rule kinds (C04: equal matches
-/// text + LF, no-eol matches the text, escaped matches what the expression decodes to, with or without LF) -- as an unquantified
+/// text + LF, no-eol matches the text, escaped matches what EscapedRule::make reads the expression as -- a trailing ` (no-eol)` dropped, the rest decoded --, with or without LF) -- as an unquantified
 /// expectation that matches exactly the output line it was written for
 pub open spec fn reads_back(text: Seq<char>, line: Seq<u8>) -> bool {
     let p = line_parts(dreg(), text);
     p.2.len() == 0 && (
         (p.1 == equal_word() && line == encode_utf8(p.0).push(10u8))
         || (p.1 == noeol_word() && line == encode_utf8(p.0))
-        || (p.1 == escaped_word() && opt_eq(decode(p.0), Some(strip_nl(line)))))
+        || (p.1 == escaped_word() && opt_eq(read_back(p.0), Some(strip_nl(line)))))
 }
 /// what the expectation text is (over the functions of unit escaping: lemma_exp_text_ascii / lemma_exp_text_unicode): printable
 /// content is written as itself, anything else as an escaped expression that decodes to it, followed by the marker
 pub proof fn lemma_exp_text(e: Escaper, c: Seq<u8>)
     requires no_lf(c),
     ensures !esc_unp(e, c) ==> encode_utf8(exp_text(e, c)) == c,
-        esc_unp(e, c) ==> exists|t: Seq<char>| #[trigger] (t + escaped_marker()) == exp_text(e, c) && opt_eq(decode(t), Some(c)),
+        esc_unp(e, c) ==> exists|t: Seq<char>| #[trigger] (t + escaped_marker()) == exp_text(e, c) && opt_eq(read_back(t), Some(c)),
 {
     match e { Escaper::Ascii => lemma_exp_text_ascii(c), Escaper::Unicode => lemma_exp_text_unicode(c) }
 }
@@ -105,13 +105,14 @@ pub proof fn lemma_line_reads_back(e: Escaper, line: Seq<u8>)
     requires no_lf(strip_nl(line)), ends_nl(line) ==> line == strip_nl(line).push(10u8),
     ensures reads_back(out_line(e, line), line),
 {
+    hide(read_back);
     let c = strip_nl(line);
     let t0 = exp_text(e, c);
     lemma_exp_text(e, c);
     axiom_default_registry();
     lemma_strip_nl_idem(line);
     if esc_unp(e, c) {
-        let t = choose|t: Seq<char>| #[trigger] (t + escaped_marker()) == exp_text(e, c) && opt_eq(decode(t), Some(c));
+        let t = choose|t: Seq<char>| #[trigger] (t + escaped_marker()) == exp_text(e, c) && opt_eq(read_back(t), Some(c));
         assert(out_line(e, line) =~= t0);
         assert(with_mod(t, escaped_word(), Seq::empty()) =~= t + escaped_marker());
         lemma_with_mod_parts(dreg(), t, escaped_word(), Seq::empty());
@@ -175,7 +176,7 @@ pub proof fn lemma_line_not_exit_code(e: Escaper, line: Seq<u8>)
     lemma_exp_text(e, c);
     axiom_exit_code_shape(out_line(e, line));
     if esc_unp(e, c) {
-        let t = choose|t: Seq<char>| #[trigger] (t + escaped_marker()) == exp_text(e, c) && opt_eq(decode(t), Some(c));
+        let t = choose|t: Seq<char>| #[trigger] (t + escaped_marker()) == exp_text(e, c) && opt_eq(read_back(t), Some(c));
         assert(out_line(e, line) =~= t + escaped_marker());
         assert((t + escaped_marker()).last() == ')');
     } else if !ends_nl(line) { assert(out_line(e, line) =~= t0 + no_eol_marker()); assert((t0 + no_eol_marker()).last() == ')'); }
